@@ -482,6 +482,35 @@ Section Generic.
     rewrite En. reflexivity.
   Qed.
 
+  (* any interleaving of next / next_back on the iterator of a full scan *)
+  Lemma iter_run_full pssm s maxi ops :
+    0 < C -> forall lo hi, hi <= seq_R (length s) * C ->
+    sc_iter_run (mkScores (full_mat pssm s) maxi) ops lo hi = Ok (iter_spec (score_def pssm s) ops lo hi).
+  Proof.
+    intros HC. induction ops as [|back r IH]; intros lo hi Hhi; cbn [sc_iter_run iter_spec]; auto.
+    destruct (Nat.ltb_spec lo hi) as [Hlt|Hge].
+    - rewrite sc_get_full by (auto; destruct back; lia). cbn [rbind].
+      rewrite IH by (destruct back; lia). reflexivity.
+    - rewrite IH by auto. reflexivity.
+  Qed.
+
+  Lemma iter_spec_front (f : nat -> T) : forall n lo hi, lo + n <= hi ->
+    iter_spec f (repeat false n) lo hi = map (fun i => Some (f i)) (seq lo n).
+  Proof.
+    induction n as [|n IH]; intros lo hi H; cbn [repeat iter_spec seq map]; auto.
+    replace (lo <? hi) with true by (symmetry; apply Nat.ltb_lt; lia).
+    rewrite IH by lia. reflexivity.
+  Qed.
+
+  Lemma iter_spec_back (f : nat -> T) : forall n lo hi, lo + n <= hi ->
+    iter_spec f (repeat true n) lo hi = map (fun i => Some (f (hi - 1 - i))) (seq 0 n).
+  Proof.
+    induction n as [|n IH]; intros lo hi H; cbn [repeat iter_spec seq map]; auto.
+    replace (lo <? hi) with true by (symmetry; apply Nat.ltb_lt; lia).
+    rewrite IH by lia. rewrite Nat.sub_0_r. f_equal.
+    rewrite <- seq_shift, map_map. apply map_ext. intros i. do 2 f_equal. lia.
+  Qed.
+
   Lemma unstripe_full pssm s :
     0 < C -> 1 <= length pssm ->
     sc_unstripe C (mkScores (full_mat pssm s) (length s + 1 - length pssm)) =
